@@ -13,6 +13,7 @@ def run (line : String) : String :=
     | some o =>
       let v : Verdict := match tokens head with
         | "C01" :: _ => judgeC01 o
+        | "C01f" :: _ => judgeC01f o
         | "C02" :: _ => judgeC02 o
         | "C03" :: _ => judgeC03 o
         | "C04" :: _ => judgeC04 o
